@@ -710,7 +710,6 @@ pub struct OpOut {
 }
 pub type OpFn = fn(&OpIn) -> Option<OpOut>;
 
-fn nc_of<A: SNode>() -> usize { if <A::Sc as Node>::NAME.ends_with("luma") { 1 } else { 3 } }
 fn col<N: Node>(c: N) -> Vec<f64> { let n = if N::NAME.ends_with("luma") { 1 } else { 3 }; c.arr()[..n].to_vec() }
 fn cola<N: Node>(c: N, a: N::T) -> Vec<f64> { let mut v = col(c); v.push(a.to64()); v }
 fn lanes_c<A: SNode>(c: A) -> (Vec<Vec<f64>>, Vec<String>) { (c.unpack().iter().map(|x| col(*x)).collect(), vec![]) }
